@@ -820,6 +820,18 @@ class FDE:
             if not isinstance(d, dict):
                 raise Unsupported('subscript store on %r' % (d,))
             d[k] = v
+        elif isinstance(t, (ast.Tuple, ast.List)) and sum(isinstance(x, ast.Starred) for x in t.elts) == 1 \
+                and (isinstance(v, list) or (isinstance(v, tuple) and not (v and isinstance(v[0], str) and v[0] in ('class', 'ext', 'kind', 'closure', 'unbound', 'partial'))) or type(v).__name__ in _ITER_TYPES):
+            vs = list(_guarded_iter(v)) if not isinstance(v, (list, tuple)) else list(v)
+            k = [i for i, x in enumerate(t.elts) if isinstance(x, ast.Starred)][0]
+            after = len(t.elts) - k - 1
+            if len(vs) < len(t.elts) - 1:
+                raise Raised('ValueError')       # not enough values to unpack
+            for a, b in zip(t.elts[:k], vs[:k]):
+                self._assign(a, b, env, fi)
+            self._assign(t.elts[k].value, vs[k:len(vs) - after], env, fi)
+            for a, b in zip(t.elts[k + 1:], vs[len(vs) - after:] if after else []):
+                self._assign(a, b, env, fi)
         elif isinstance(t, (ast.Tuple, ast.List)):
             if isinstance(v, (tuple, list)) and len(v) != len(t.elts) and not any(isinstance(x, ast.Starred) for x in t.elts) \
                     and not (isinstance(v, tuple) and v and isinstance(v[0], str) and v[0] in ('class', 'ext', 'kind', 'closure', 'unbound', 'partial')):
@@ -1007,6 +1019,10 @@ class FDE:
                 import collections.abc as _cabc
                 if hasattr(_cabc, e.attr):
                     return ('ext', getattr(_cabc, e.attr))       # (also what desugared match statements test sequences / mappings against)
+            if isinstance(e.value, ast.Name) and e.value.id not in env and fi is not None and fi.module.imports.get(e.value.id) == 'collections.abc':
+                import collections.abc as _cabc
+                if hasattr(_cabc, e.attr):
+                    return ('ext', getattr(_cabc, e.attr))       # import collections.abc as <alias>
             if isinstance(e.value, ast.Name) and (e.value.id, e.attr) in self.class_objs:
                 return self.class_objs[(e.value.id, e.attr)]
             if isinstance(e.value, ast.Name) and e.value.id not in env and fi is not None and e.value.id in fi.module.imports and e.value.id not in self.repo.classes:
@@ -1282,12 +1298,20 @@ class FDE:
         if isinstance(op, (ast.In, ast.NotIn)):
             if isinstance(b, Obj) and '_fde_keys' in b.f:
                 return (a in b.f['_fde_keys']) == isinstance(op, ast.In)      # the keys of the built-in storage, supplied by the rule
+            if isinstance(b, ObjDict):
+                if isinstance(a, str) and a in b.obj.f and a not in b.obj.missing:
+                    return isinstance(op, ast.In)
+                if isinstance(a, str) and a in b.obj.missing:
+                    return not isinstance(op, ast.In)
+                raise Unsupported('membership of %r in the __dict__ of %s: attribute not modelled' % (a, b.obj.name))
             if isinstance(b, (Obj, Opaque)):
                 raise Unsupported('membership test in an abstract value')
             try:
                 return (a in b) == isinstance(op, ast.In)
             except TypeError:
-                raise Raised('TypeError')       # `x in None`, unhashable key ...
+                if b is None or isinstance(b, (int, float, bool, list, tuple, dict, set, frozenset, str, bytes)):
+                    raise Raised('TypeError')       # `x in None`, unhashable key ...
+                raise Unsupported('membership test in %r' % (b,))
         if a is None or b is None:
             raise Raised('TypeError')
         if isinstance(op, ast.Gt):
